@@ -28,7 +28,7 @@ func runDirs(c *cctx) {
 	}
 	_ = os.WriteFile(c.sb.Root+"/afile", []byte("x"), 0o644)
 	c.sb.freeze()
-	g := &nameGen{Root: c.sb.Root, Targets: c.sb.Targets, Inside: []string{"tmp", "sub", "sub/deep", "afile"}, Suffix: c.sb.Suffixes}
+	g := &nameGen{Root: c.sb.Root, Targets: c.sb.Targets, Inside: []string{"tmp", "sub", "sub/deep", "afile"}, Suffix: c.sb.Suffixes, Embed: c.sb.Embed}
 	structs := []*utils.DirStructure{top, tmp, deep}
 	snames := []string{"top", "child", "grandchild"}
 
